@@ -15,7 +15,7 @@ import (
 var candVals = map[string][]interface{}{
 	"x": {true, false}, "y": {true, false}, "z": {true, false},
 	"n": {int64(0), int64(2), int64(-1)}, "m": {int64(1), int64(0), int64(3)},
-	"s": {"a", "b"}, "l": {[]int64{1, 2}, []int64{}},
+	"s": {"a", "b", "DNE"}, "l": {[]int64{1, 2}, []int64{}},
 }
 
 func varsOf(t *Tree, acc map[string]bool) {
